@@ -212,6 +212,10 @@ impl Property for C13 {
             Ok(g) => g,
             Err(e) => return Outcome::Degenerate(format!("learn panics: {}", panic_class(&e))),
         };
+        got.train.iter().chain(got.val_loss.iter()).chain(got.val_acc.iter()).for_each(|x| stats.observe(x.to_bits() as u64));
+        for t in got.params.iter() {
+            t.iter().for_each(|x| stats.observe(x.to_bits() as u64));
+        }
         let sig = json!({ "tolerance": tol, "with_validation": sc.val.is_some() });
         let run = got.train.len();
         let viol = |class: &str, detail: String| {
